@@ -45,9 +45,9 @@ def check():
     prof["options"] = opt_budget
     return solvercheck.run(
         "C04", "C04.v" if __import__("os").path.exists(__import__("os").path.join(solvercheck.common.COQ, "props", "C04.v")) else None,
-        [dict(profile=prof, n_quick=120, n_thorough=1500, isolated=True, timeout=20),
-         dict(builder=signs_builder, n_quick=1, n_thorough=1, isolated=True, timeout=15)],
+        [dict(profile=prof, n_quick=120, n_thorough=1500, isolated=True, timeout=60),
+         dict(builder=signs_builder, n_quick=1, n_thorough=1, isolated=True, timeout=45)],
         [oracles.oracle_C04, oracles.oracle_shapes], TB,
         "pathological right-hand sides (finite-time blow-up y'=y^2 and y'=1+y^2, stiff decay with explicit methods, discontinuous, "
-        "NaN-/inf-returning after t*) x 6 methods x default and finite budgets; one process per case with a 20 s watchdog and an "
+        "NaN-/inf-returning after t*) x 6 methods x default and finite budgets; one process per case with a 60 s watchdog and an "
         "address-space limit (hang => violation), panics caught; each case also replayed on the model; non-trivial = >= 2 accepted steps")
